@@ -1950,6 +1950,29 @@ def r_guard(E):
             "R-GUARD", "ModelingObject.self_delete guard",
             "self_delete no longer raises on a non-empty modeling_obj_containers before its first detach: an object "
             "still referenced can be (partly) deleted", rel, sd.lineno, "ModelingObject.self_delete"))
+    # … and detaches *every* link it holds: the loop ranges over self.mod_obj_attributes itself (one wrapper per link, an
+    # object listed twice has two), not over a de-duplicated view of it (a dict keyed by id, a set)
+    from ..astutil import fully_expanded as _fx_g
+    res.instances += 1
+    for c in detaches:
+        loop = c
+        while loop is not None and not isinstance(loop, (ast.For, ast.comprehension)):
+            loop = getattr(loop, "_parent", None)
+        if loop is None:
+            continue
+        it = _fx_g(loop.iter, sd)
+        while isinstance(it, ast.Call) and norm(it.func) in ("list", "tuple") and len(it.args) == 1:
+            it = it.args[0]
+        dedup = (isinstance(it, ast.Call) and (norm(it.func) in ("set", "frozenset", "dict.fromkeys")
+                                              or (isinstance(it.func, ast.Attribute) and it.func.attr in ("values", "keys")
+                                                  and isinstance(_fx_g(it.func.value, sd), (ast.DictComp, ast.Dict))))) \
+            or isinstance(it, (ast.SetComp, ast.DictComp))
+        if dedup:
+            res.findings.append(Finding(
+                "R-GUARD", "ModelingObject.self_delete detaches a de-duplicated view of its links",
+                f"self_delete detaches the links of `{norm(it)[:70]}` — one per linked object — instead of every wrapper of "
+                f"self.mod_obj_attributes: an object linked twice (listed twice in a list) keeps a wrapper that still "
+                f"names the deleted object as one of its holders", rel, c.lineno, "ModelingObject.self_delete"))
     rel, si = pm.find_function("core/system.py", "System.__init__")
     res.instances += 1
     chk = [c.lineno for c in _calls(si) if _self_method_call(c) == "check_no_object_to_link_is_already_linked_to_another_system"]
